@@ -1,5 +1,5 @@
 """Symbolic executor: real function ASTs of /repo against sidecar contracts -> named obligations (DESIGN 2.1-2.5)."""
-import ast, re
+import ast, os, re
 import copy
 import itertools
 import z3
@@ -713,7 +713,23 @@ class Exec:
                 s.trace.append('L%s: call %s raises %s' % (ln, c.name, exc))
                 self.ctx.raises.append(Outcome('raise', s, exc=exc))
         for p in c.ensures:
-            st.assume(self.spec_eval(p.text, st, env, res))
+            t_ = self.spec_eval(p.text, st, env, res)
+            if p.text.strip() != 'False' and z3.is_false(z3.simplify(t_)) and not self.spec_mode:
+                # a callee postcondition that is identically false here would make everything after the call vacuously true (typically a
+                # mistyped ghost: comparing an opaque value with None).  Refuse instead of proving nonsense.
+                raise ToolLimit('postcondition %r of %s is identically false at this call (line %s): contradictory contract' % (p.text[:60], c.name, ln))
+            st.assume(t_)
+        if os.environ.get('PYVC_CALL_COVERS') and c.assumed and c.ensures and not self.spec_mode and not any(p_.text.strip() == 'False' for p_ in c.ensures):
+            # audit mode (thorough tier): an ASSUMED contract must not make a reachable state unreachable.  Quantifier-free part only, 300 ms:
+            # `unsat` after the call while `sat` before it means the assumed postconditions contradict what is known (vacuous proofs follow).
+            def _qf_sat(pc):
+                sv = z3.Solver(); sv.set('timeout', 300)
+                from .solve import has_quantifier
+                for f_ in pc:
+                    if not has_quantifier(f_): sv.add(f_)
+                return sv.check()
+            if _qf_sat(st.pc) == z3.unsat and _qf_sat(pre.pc) == z3.sat:
+                raise ToolLimit('assumed contract %s makes the state at line %s unreachable: its postconditions contradict the caller\'s facts (vacuity)' % (c.name, ln))
         self.ctx.old = saved_old
         return res
 
